@@ -28,7 +28,7 @@ def license_expr(rng, depth=2):
 HEADERS = ["Metadata-Version", "Name", "Version", "Summary", "Description", "Keywords", "Home-page", "Author", "Author-email", "License", "Classifier",
            "Requires-Dist", "Requires-Python", "Provides-Extra", "Project-URL", "Description-Content-Type", "Dynamic", "License-Expression", "License-File",
            "X-Unknown", "name", "NAME", "Platform", "Supported-Platform", "Obsoletes-Dist", "Content-Type", "Content-Transfer-Encoding", "MIME-Version"]
-VALUES = ["2.1", "2.4", "1.0", "9.9", "foo", "Foo_Bar", "a b", "1.0", "1.0.0a1", "not a version", "text/markdown", "text/markdown; charset=UTF-8; variant=GFM",
+VALUES = ["2.1", "2.4", "1.0", "9.9", "2.5", "2.10", "3.0", "2.0", "foo", "Foo_Bar", "a b", "1.0", "1.0.0a1", "not a version", "text/markdown", "text/markdown; charset=UTF-8; variant=GFM",
           "text/plain\n foo", "multipart/mixed; boundary=x", "base64", "quoted-printable", "a, b,c", "Home, https://x.org", "Home", "requests>=2 ; extra == 'x'", ">=3.8",
           "bad req !!", "MIT OR Apache-2.0", "{x}", "a{0}", "=?utf-8?q?caf=C3=A9?=", "caf\xe9", "\xff\xfe", "", "name", "version", "LICENSE.txt", "../x", "/abs"]
 def email_doc(rng):
@@ -46,7 +46,7 @@ RAW_LIST = ["platforms", "supported_platforms", "keywords", "classifiers", "requ
             "provides", "obsoletes", "requires_external", "dynamic", "license_files"]
 def raw_dict(rng):
     d = {}
-    if rng.random() < 0.9: d["metadata_version"] = rng.choice(["1.0", "1.1", "1.2", "2.1", "2.2", "2.3", "2.4", "2.4", "9.9", "", "{x}"])
+    if rng.random() < 0.9: d["metadata_version"] = rng.choice(["1.0", "1.1", "1.2", "2.1", "2.2", "2.3", "2.4", "2.4", "9.9", "", "{x}", "2.5", "2.10", "3.0", "2.0", "1.3", "2.04", "2.4.1", " 2.4", "2.4\n", "2", "2.٤"])
     if rng.random() < 0.9: d["name"] = rng.choice(["foo", "Foo_Bar", "a b", "", "{", "-a"])
     if rng.random() < 0.9: d["version"] = rng.choice(["1.0", "1.0a1", "x", "{}", "1.0+local"])
     for _ in range(rng.randrange(0, 5)):
